@@ -119,20 +119,22 @@ PROPS = {
     ),
     'C04': dict(
         title='every valid encoding is accepted and read as the reference reads it',
-        modules=['Pbc.Props.C05', 'Pbc.Props.C11', 'Pbc.Lemmas.Elem', 'Pbc.Props.C04', 'Pbc.Props.C01c'],
+        modules=['Pbc.Props.C05', 'Pbc.Props.C11', 'Pbc.Lemmas.Elem', 'Pbc.Props.C04', 'Pbc.Props.C01c', 'Pbc.Props.C04c', 'Pbc.Props.C10'],
         theorems=['Pbc.Props.C05.pass2_count_le_pass1', 'Pbc.Props.C05.scanLoop_fuel_irrelevant',
                   'Pbc.Props.C11.only_required_fields_matter', 'Pbc.Lemmas.parseScalar_scalarBytes', 'Pbc.Lemmas.scanKey_keyBytes',
-                  'Pbc.Props.C04.parse_repeated_either', 'Pbc.Props.C04.parse_packed_anyflag', 'Pbc.Props.C04.parse_rep_elems_anyflag', 'Pbc.Props.C04.decGroups_padded', 'Pbc.Props.C04.scanVarint_padded', 'Pbc.Props.C01.roundtrip'],
+                  'Pbc.Props.C04.parse_repeated_either', 'Pbc.Props.C04.parse_packed_anyflag', 'Pbc.Props.C04.parse_rep_elems_anyflag', 'Pbc.Props.C04.decGroups_padded', 'Pbc.Props.C04.scanVarint_padded', 'Pbc.Props.C01.roundtrip',
+                  'Pbc.Props.C04.parseAll_reorder', 'Pbc.Props.C04.comm_of_keys', 'Pbc.Props.C04.unpack_reordered', 'Pbc.Props.C04.parse_packed_appends', 'Pbc.Props.C10.stale_occurrence_irrelevant', 'Pbc.Lemmas.Swap.swapEq_of_filters'],
         refine=PARSE_LEAVES + TABLE_LEAVES,
         cases=[('valid', 400, 6000, [])],
         oracle='c04', ref=True,
     ),
     'C09': dict(
         title='unknown fields survive parse and re-serialise (forward compatibility)',
-        modules=['Pbc.Props.C02', 'Pbc.Lemmas.Elem', 'Pbc.Props.C01c'],
+        modules=['Pbc.Props.C02', 'Pbc.Lemmas.Elem', 'Pbc.Props.C01c', 'Pbc.Props.C09'],
         theorems=['Pbc.Props.C02.chunksMsg_flatten', 'Pbc.Props.C02.packMsg_length', 'Pbc.Lemmas.scanKey_keyBytes',
                   'Pbc.Lemmas.scanLen_lenPrefixed',
-                  'Pbc.Props.C01.pack_scans', 'Pbc.Props.C01.roundtrip'],
+                  'Pbc.Props.C01.pack_scans', 'Pbc.Props.C01.roundtrip',
+                  'Pbc.Props.C09.forward_compat', 'Pbc.Props.C04.unpack_reordered', 'Pbc.Props.C04.parseAll_reorder'],
         refine=['parse_tag_and_wiretype_spec', 'scan_length_prefixed_data_spec', 'scan_varint_spec', 'tag_pack_spec'],
         cases=[('compat', 300, 5000, [])],
         oracle='c09', ref=True,
@@ -141,7 +143,8 @@ PROPS = {
         title='repeated occurrences of a singular field merge as protobuf prescribes',
         modules=['Pbc.Props.C11', 'Pbc.Props.C10'],
         theorems=['Pbc.Props.C11.only_required_fields_matter',
-                  'Pbc.Props.C10.last_wins', 'Pbc.Props.C10.last_of_two_wins', 'Pbc.Props.C10.repeated_appends', 'Pbc.Props.C10.oneof_last_member_wins'],
+                  'Pbc.Props.C10.last_wins', 'Pbc.Props.C10.last_of_two_wins', 'Pbc.Props.C10.repeated_appends', 'Pbc.Props.C10.oneof_last_member_wins',
+                  'Pbc.Props.C10.stale_occurrence_irrelevant'],
         refine=PARSE_LEAVES,
         cases=[('merge', 400, 6000, [])],
         oracle='c10', ref=True,
